@@ -7,6 +7,7 @@ Proofs/ToString*.lean; what is stated here is kernel-checked.
 import JsonbModel.Functions.ToString
 import JsonbModel.Spec.StrictJson
 import JsonbModel.Spec.Order
+import JsonbModel.Proofs.ToStringPretty
 
 namespace Jsonb.Props
 open Jsonb
@@ -30,6 +31,36 @@ theorem C03_no_raw_control (s : Bytes) : ∀ b ∈ Fn.escapeBytes s, 0x20 ≤ b 
       have := escape_one_no_control c.toNat c.toNat_lt b
       rw [show UInt8.ofNat c.toNat = c by simp] at this
       exact this h
+
+/-- the strict string reader inverts the escaper byte for byte, for EVERY byte string (all
+control characters, quotes, backslashes, DEL, multi-byte UTF-8) -/
+theorem C03_unescape_escape (s rest : Bytes) (fuel : Nat) (hf : s.length + 1 ≤ fuel) :
+    Strict.strBody fuel (Fn.escapeBytes s ++ (0x22 :: rest)) = some (s, rest) :=
+  strBody_escape s rest fuel hf
+
+/-- **both renderings are strict RFC 8259 JSON denoting the same document**: for every good
+document and every float formatter that is good on its floats (`fmtOK`: validated per instance
+for ryu), compact (`p = false`) and pretty (`p = true`) text is accepted by the independent
+strict parser and the value read is equal to the original — identical when the original
+stores its non-negative integers unsigned -/
+theorem C03_strict_valid_and_same (fmt : Nat → Bytes) (p : Bool) (v : JV) (hg : JV.goodTop v = true)
+    (hok : fmtOK fmt v) :
+    ∃ text v', Fn.toStringDoc fmt p (JV.encodeSpec v) = .ok text ∧ Strict.parse text = some v' ∧
+      Spec.valEq v' v = true ∧ (Driver.allUnsigned v = true → v' = v) :=
+  strict_toStringDoc fmt p v hg hok
+
+/-- re-encoding the parsed text gives the identical JSONB bytes when non-negative integers are
+stored unsigned -/
+theorem C03_reencode (fmt : Nat → Bytes) (v : JV) (hg : JV.goodTop v = true) (hok : fmtOK fmt v)
+    (hu : Driver.allUnsigned v = true) :
+    ∃ text v', Fn.toStringDoc fmt false (JV.encodeSpec v) = .ok text ∧ Strict.parse text = some v' ∧
+      JV.encodeSpec v' = JV.encodeSpec v := reencode_toString fmt v hg hok hu
+
+/-- the pretty rendering differs from the compact one only in insignificant whitespace -/
+theorem C03_pretty_is_compact_modulo_ws (fmt : Nat → Bytes) (v : JV) (hg : JV.goodTop v = true)
+    (hok : fmtOK fmt v) :
+    ∃ tp t, Fn.toStringDoc fmt true (JV.encodeSpec v) = .ok tp ∧ Fn.toStringDoc fmt false (JV.encodeSpec v) = .ok t ∧
+      Strict.stripWs false tp = t := stripWs_pretty fmt v hg hok
 
 /-- every control character, quote and backslash, as a value and as a key, round-trips through
 the strict reader (kernel-evaluated witness of the repaired defect) -/
